@@ -104,3 +104,43 @@ fn c20_slot_json_round_trip() {
     let _ = U256::ZERO;
     println!("CASES c20_round_trip {cases}");
 }
+
+/// every way of reading the JSON back, not only `from_str` on the text just written: through a `serde_json::Value`, from a
+/// reader, from bytes, from text whose strings carry legal JSON escapes, and pretty-printed text; and every width an integral
+/// / bytes / bits type can carry (1..=256), at every offset 0..=255
+#[test]
+fn c20_every_reading_path_and_every_width_round_trips() {
+    let mut cases = 0u64;
+    let bw = boundary_words();
+    let mut slots: Vec<StorageSlot> = vec![];
+    for (i, &ix) in bw.iter().enumerate() {
+        slots.push(StorageSlot::new(U256Wrapper(ix), (i * 37) % 256, AbiType::Array { size: U256Wrapper(bw[(i + 3) % bw.len()]), tp: Box::new(AbiType::Bits { length: Some(1 + i % 7) }) }));
+    }
+    for w in 1..=256usize {
+        let t = match w % 5 { 0 => AbiType::Number { size: Some(w) }, 1 => AbiType::UInt { size: Some(w) }, 2 => AbiType::Int { size: Some(w) }, 3 => AbiType::Bits { length: Some(w) }, _ => AbiType::Bytes { length: Some(w) } };
+        slots.push(StorageSlot::new(U256Wrapper(U256::from(w as u64)), w - 1, t.clone()));
+        slots.push(StorageSlot::new(U256Wrapper(U256::MAX - U256::from(w as u64)), 256 - w, AbiType::Mapping { key_type: Box::new(t.clone()), value_type: Box::new(AbiType::Struct { elements: vec![StructElement::new(w - 1, t)] }) }));
+    }
+    for slot in &slots {
+        let txt = serde_json::to_string(slot).unwrap();
+        let mut ways: Vec<(&str, Result<StorageSlot, String>)> = vec![];
+        ways.push(("from_str", serde_json::from_str::<StorageSlot>(&txt).map_err(|e| e.to_string())));
+        ways.push(("from_slice", serde_json::from_slice::<StorageSlot>(txt.as_bytes()).map_err(|e| e.to_string())));
+        ways.push(("from_reader", serde_json::from_reader::<_, StorageSlot>(std::io::Cursor::new(txt.clone().into_bytes())).map_err(|e| e.to_string())));
+        ways.push(("to_value / from_value", serde_json::to_value(slot).map_err(|e| e.to_string()).and_then(|v| serde_json::from_value::<StorageSlot>(v).map_err(|e| e.to_string()))));
+        ways.push(("from_str of the Value parsed from the text", serde_json::from_str::<serde_json::Value>(&txt).map_err(|e| e.to_string()).and_then(|v| serde_json::from_value::<StorageSlot>(v).map_err(|e| e.to_string()))));
+        ways.push(("pretty-printed text", serde_json::to_string_pretty(slot).map_err(|e| e.to_string()).and_then(|t| serde_json::from_str::<StorageSlot>(&t).map_err(|e| e.to_string()))));
+        // the same text with the first hex digit after every "0x written as a JSON \u escape (a legal spelling of the same string)
+        let escaped = txt.replace("\"0x0", "\"0x\\u0030").replace("\"0xf", "\"0x\\u0066");
+        ways.push(("text with \\u escapes inside the hex strings", serde_json::from_str::<StorageSlot>(&escaped).map_err(|e| e.to_string())));
+        for (how, r) in ways {
+            cases += 1;
+            match r {
+                Ok(back) if back == *slot => {}
+                Ok(back) => witness("C20", "json.round_trip_equal", format!("{how}: {txt}"), format!("{back:?}"), format!("{slot:?}")),
+                Err(e) => witness("C20", "json.round_trip_equal", format!("{how}: {txt}"), format!("Err({e})"), "the entry that was written".into()),
+            }
+        }
+    }
+    println!("CASES c20_reading_paths {cases}");
+}
